@@ -17,7 +17,7 @@ RULE = ("one logical chain x many physical layouts (blocks->files assignment: si
         "height x all five callbacks): real "
         "csvdump (+unspentcsvdump) run per layout; output must equal the model and be identical across layouts of the same chain; the H2 "
         "fetch log must name exactly the (file, offset) of the record of each height. "
-        "Also: records longer than their block, index churn (keys rewritten / ghost records deleted over several database sessions), xor.dat as a link to a key file of another name, and cases in which the block files belong to another account than the one running the tool. distinct = (assignment, #files class, gaps, numbering, padding, sparse, extras, index style) signatures")
+        "Also: records longer than their block, index churn (keys rewritten / ghost records deleted over several database sessions), xor.dat as a link to a key file of another name, and cases in which the block files belong to another account than the one running the tool. Directory extras include symbolic links that lead nowhere (dangling, relative, loop) named by no record. distinct = (assignment, #files class, gaps, numbering, padding, sparse, extras, index style) signatures")
 
 INDEX_STYLES = [{}, {"write_buffer": 4096}, {"write_buffer": 2048, "sessions": 3}, {"write_buffer": 4096, "compact": True},
                 {"sessions": 2}]
